@@ -7,6 +7,7 @@ import (
 	"io"
 	"log/slog"
 	"runtime/debug"
+	"slices"
 
 	"github.com/shpandrak/shpanstream"
 	"github.com/shpandrak/shpanstream/internal/util"
@@ -293,7 +294,9 @@ func (s Stream[T]) IsEmpty(ctx context.Context) (bool, error) {
 }
 
 func (s Stream[T]) WithAdditionalLifecycle(lch Lifecycle) Stream[T] {
-	return newStream(s.provider, append(s.allLifecycleElement, lch))
+	// Clip the slice so that append always allocates, streams derived from the same parent must not share
+	// (and overwrite each other's elements in) the spare capacity of the parent's backing array
+	return newStream(s.provider, append(slices.Clip(s.allLifecycleElement), lch))
 }
 
 func doOpenStream[T any](ctx context.Context, s Stream[T]) (context.CancelFunc, error) {
